@@ -19,8 +19,6 @@ func checkC10(p *Prog, r *Result, tier string) {
 	r.Rule("C10.R5", "flusher critical section: the pending flush is called with the handle lock in write mode and after the context was re-checked under that lock", 1)
 	r.Rule("C10.R6", "explicit flushes: FlushAll calls the pending flush on every return; FlushAllAndCommit calls flush and commit on every return regardless of the first error; every iteration of the map flush writes the object and drops the entry", 3)
 	r.Rule("C10.R7", "a delete drops the pending entry (CALL.del(pending) on every successful delete under caching; shared with C01.R2)", 1)
-	r.Rule("C10.R8", "the 'flusher started' flag belongs to one settings object: the async settings are handled by pointer, no function copies a whole settings value (which would duplicate the private flag, so that the starter believes a flusher is running for settings that have none) unless it resets the flag of the copy", 0)
-	checkAsyncCopies(p, r, "C10.R8")
 	r.Rule("C10.R9", "a schema owns its settings object: on Create and on load, every pointer stored into the AsyncWrites field of a schema was allocated by the package during that call (a private copy, or the decoder's) or is nil; the caller's pointer, which one Schema value used for several collections shares between them, is never kept (the 'flusher started' flag lives in that object: with a shared one only the first collection gets a flusher)", 2)
 	checkSettingsOwned(p, c0(p), r, "C10.R9")
 	r.NotDecided = []string{"that the threshold/timeout comparison fires in time (wall clock)", "that the flusher is not starved"}
@@ -698,63 +696,6 @@ func checkCachePredicates(p *Prog, r *Result, rule string) {
 			r.Report(rule, FuncName(fn), "truth table", Violated, "predicate differs from "+spec.text+" at: "+strings.Join(bad, "; "), p.Pos(fn.Pos()), nil, true)
 		}
 		r.Evaluations += cells
-	}
-}
-
-// checkAsyncCopies: whole-value loads of the async settings struct.
-func checkAsyncCopies(p *Prog, r *Result, rule string) {
-	a := p.A
-	st := structOf(a.Async)
-	if st == nil {
-		r.Report(rule, "-", "settings type", Undecided, "async settings type not found", "", nil, false)
-		return
-	}
-	// the private flag(s): unexported boolean fields
-	flags := map[*types.Var]bool{}
-	for i := 0; i < st.NumFields(); i++ {
-		f := st.Field(i)
-		if b, ok := f.Type().Underlying().(*types.Basic); ok && b.Kind() == types.Bool && !f.Exported() {
-			flags[f] = true
-		}
-	}
-	if len(flags) == 0 {
-		r.Report(rule, "-", "private flag of the settings type", Discharged, "the settings type has no private flag any more", "", nil, false)
-		return
-	}
-	n := 0
-	for _, fn := range p.Funcs {
-		resets := false
-		for _, b := range fn.Blocks {
-			for _, in := range b.Instrs {
-				if s, ok := in.(*ssa.Store); ok {
-					if _, f, _ := fieldOf(s.Addr); flags[f] {
-						if c, ok := s.Val.(*ssa.Const); ok && c.Value != nil && c.Value.String() == "false" {
-							resets = true
-						}
-					}
-				}
-			}
-		}
-		for _, b := range fn.Blocks {
-			for _, in := range b.Instrs {
-				u, ok := in.(*ssa.UnOp)
-				if !ok || u.Op != token.MUL || named(u.Type()) != a.Async {
-					continue
-				}
-				if _, isStruct := u.Type().Underlying().(*types.Struct); !isStruct {
-					continue
-				}
-				n++
-				if resets {
-					r.Report(rule, FuncName(fn), "copy of a settings value resets the flag", Discharged, "", p.Pos(in.Pos()), nil, true)
-				} else {
-					r.Report(rule, FuncName(fn), "copy of a settings value resets the flag", Violated, "a whole async settings value is copied together with its private 'flusher started' flag: when the original's flusher is running, the starter will never start one for the copy and writes accepted under it are flushed by nobody until Close", p.Pos(in.Pos()), nil, true)
-				}
-			}
-		}
-	}
-	if n == 0 {
-		r.Report(rule, "-", "no settings value is copied", Discharged, "", "", nil, true)
 	}
 }
 
